@@ -98,7 +98,7 @@ class Closure:
 
 class Frame:
     __slots__ = ('info', 'locals', 'enclosing', 'gen', 'first_arg', 'defcls', 'loop_counter', 'call_counter',
-                 'reduce_counter', 'reduce_site')
+                 'reduce_counter', 'reduce_site', 'join_counter', 'model_site')
 
     def __init__(self, info, locals_, enclosing, first_arg=None, defcls=None):
         self.info = info
@@ -111,6 +111,8 @@ class Frame:
         self.call_counter = 0
         self.reduce_counter = 0
         self.reduce_site = None
+        self.join_counter = 0
+        self.model_site = None
 
 
 class SuperProxy:
@@ -473,6 +475,9 @@ class Interp:
         if m is not None:
             self.st.used_models.add(_qn(func))
             return m(self, args, kwargs)
+        if getattr(func, '_pv_recursive', False):
+            from . import models
+            return models.call_recursive_spec(self, func, args, kwargs)
         code = func.__code__
         if is_interpretable_file(code.co_filename):
             return self.call_real_function(func, args, kwargs, defcls)
@@ -586,7 +591,7 @@ class Interp:
                 return wrap(to_z3(obj.pos)) if not isinstance(obj.pos, int) else obj.pos
             if name == 'xs':
                 return obj.xs
-        if isinstance(obj, (_models.SMap, _models.SIter)):
+        if isinstance(obj, (_models.SMap, _models.SIter, _models.SMapProxy)):
             return SymMethod(obj, name)
 
         if isinstance(obj, SuperProxy):
@@ -735,6 +740,9 @@ class Interp:
             return self.truth(self.resolve(v))
         if isinstance(v, SList):
             return wrap(v.length > 0)
+        from . import models as _m
+        if isinstance(v, _m.SMap):
+            return wrap(z3.Not(v.has == z3.K(v.ksort, z3.BoolVal(False))))
         if isinstance(v, (int, str, list, tuple, dict, set, frozenset, float, bytes)):
             return bool(v)
         if isinstance(v, Opaque):
@@ -875,7 +883,21 @@ class Interp:
                             if all(isinstance(self.eq(alt, b), bool) for alt in a.alts) else self._eq_resolved(a, b))
             if isinstance(b, SChoice) and not isinstance(a, Sym):
                 return self.eq(b, a)
+            if isinstance(a, SChoice) and isinstance(b, SChoice) and \
+                    all(isinstance(x, enum.Enum) for x in a.alts + b.alts):
+                hits = [z3.And(a.idx == i, b.idx == k) for i, x in enumerate(a.alts)
+                        for k, y in enumerate(b.alts) if x == y]
+                return wrap(z3.Or(*hits)) if hits else False
             return self._eq_resolved(a, b)
+        from . import models as _m
+        if isinstance(a, _m.SMapProxy):
+            a = a.m
+        if isinstance(b, _m.SMapProxy):
+            b = b.m
+        if isinstance(a, _m.SMap):
+            return a.eq(self, b)
+        if isinstance(b, _m.SMap):
+            return b.eq(self, a)
         sa, sb = isinstance(a, Sym), isinstance(b, Sym)
         if sa or sb:
             if isinstance(a, SList) or isinstance(b, SList):
@@ -905,7 +927,7 @@ class Interp:
                 r = self.reg.opaque_eq(self, a, b)
                 if r is not NotImplemented:
                     return r
-            return a is b
+            return self.is_(a, b)
         if not isinstance(a, (int, str, float, bytes, type(None), tuple, list, dict, set, frozenset, enum.Enum, type)):
             m = _static_lookup(type(a), '__eq__')
             if m is not None and isinstance(m[0], types.FunctionType) and _is_repo_function(m[0]):
@@ -996,6 +1018,11 @@ class Interp:
             if _kind(a) != _kind(b):
                 return False
             raise Unsupported("'is' on symbolic int/str")
+        if isinstance(a, Opaque) and isinstance(b, Opaque) and a is not b:
+            from .api import same_object
+            r = same_object(a, b)
+            if r is not None:
+                return r
         return a is b
 
     def not_(self, v):
@@ -1014,6 +1041,11 @@ class Interp:
         if isinstance(container, SList):
             from . import models
             return models.slist_contains(self, container, x)
+        from . import models as _m
+        if isinstance(container, _m.SMap):
+            return container.contains(self, x)
+        if isinstance(container, (_m.SMapKeys, _m.SMapProxy)):
+            return container.m.contains(self, x)
         if isinstance(container, (list, tuple, set, frozenset)) or isinstance(container, (dict,)) or \
                 type(container).__name__ in ('dict_keys', 'dict_values', 'mappingproxy'):
             if not contains_sym(x, 0) and not contains_sym(container, 1) and not isinstance(x, (tuple, list)):
@@ -1265,7 +1297,7 @@ class Interp:
             obj = self.resolve(obj)
         if isinstance(idx, (SOpt, SChoice)):
             idx = self.resolve(idx)
-        if isinstance(obj, (SStr, SList)) or (isinstance(obj, str) and _slice_sym(idx)):
+        if isinstance(obj, (SStr, SList, models.SMap, models.SMapProxy)) or (isinstance(obj, str) and _slice_sym(idx)):
             return models.sym_getitem(self, obj, idx)
         if isinstance(obj, Opaque):
             return self.reg.call_opaque(self, obj, '__getitem__', [idx], {})
